@@ -50,10 +50,10 @@ CHECKS = {
    text="Lean theorems: breakTie accept/first/random, index shift of scf/swf, randomized-scoring probabilities. Correspondence: rules x tie-breakers x index conventions with the same seed; probability vectors intercepted; all matching/allocation/elicitation rules run in both conventions.",
    note="Index-shift theorems are proved for the voting models; for the other rules the shift is checked on the real code only (stated in DESIGN.md).",
    technique="Lean 4 proof + differential / metamorphic correspondence"),
- "C03": dict(level="translation_validation", design="6/C03",
-   text="Every output is certified and, for n <= 7, compared with the model's brute-force optimum optStable (PROVED to be the maximum over all stable permutations: C03_optStable_spec, C03_brute_optimal; value computed inside the model, no Python arithmetic, no z3). Irving's algorithm is mirrored executably stage by stage (IrvingAlgo: C03_irving_sound - whatever the mirror returns is a perfect stable matching; C03_closedSubset_max by Picard's reduction from C08) and the implementation's final answer and every internal stage must equal the mirror's; the closed-subset stage is also driven directly on random rotation posets. Not proved: that the discovered rotations form the Irving-Leather-Gusfield lattice, hence optimality of the algorithm itself - that stays certified per output: stability by the Lean-executable stableB, optimality by an LP-dual certificate over the Vande Vate/Rothblum stability inequalities found by z3 and checked by the Lean-executable smCertOk (C03_cert_sound: accepted => stable and no stable matching is heavier, any n). Brute force / per-block optima are the search for failing inputs. The elimination layer (eliminate, rotationWeight, closure) is modelled and proved.",
-   note="z3 only finds certificates (never trusted); existence of certificates (integrality of the stable-matching polytope) is not proved and not needed.",
-   technique="Lean-proved certificate checker (LP weak duality over stability inequalities) applied to every output"),
+ "C03": dict(level="proof", design="6/C03",
+   text="Lean theorems about an executable mirror of the WHOLE algorithm (IrvingAlgo: male-optimal matching by the proved Gale-Shapley model, shortlists, level-wise rotation discovery, sparse rotation poset, maximum-weight closed subset through the proved max-flow model, elimination): C03_irving_sound (every answer is a perfect stable matching) and C03_irving_optimal (every answer has the value Brute.optStable, which is PROVED to be the maximum over all stable matchings: C03_optStable_spec), for every n, under the one hypothesis WeightBound (total negative rotation weight below sys.maxsize, the 'infinite' capacity the code itself uses). The optimality proof formalises the Irving-Leather-Gusfield theory: lattice of stable matchings (C03_stable_meet/join), every stable matching is reached from the man-optimal one by eliminating exposed rotations (C03_reachable_from_man_optimal), the rotations on a path are unique (C03_path_rotations_unique), optStable = max over elimination sequences, the mirror's discovery finds a maximal chain (C03_allRotations_maximal_chain), the sparse poset's edges are exactly sound and complete (C03_posetGraph_sound_complete: Rules 1 and 2), Picard's reduction for the closed subset (C03_closedSubset_max, from C08). Correspondence: the implementation's final answer AND every internal stage (male-optimal matching, shortlists, rotations + eliminating map, poset edges, rotation weights + chosen closed subset) equal the mirror's; the closed-subset stage is also driven directly on random posets. Independently every output is checked against the model's brute-force optimum (n <= 7) and an LP-dual certificate (z3-found, Lean-checked smCertOk: C03_cert_sound) for larger n.",
+   note="Trusted: Lean kernel + propext/Classical.choice/Quot.sound; the hand-written mirror is tied to the Python code stage by stage by differential runs. z3 only finds certificates (never trusted).",
+   technique="Lean 4 proof of the algorithm's mirror (soundness + optimality via the rotation-poset theory) + stage-wise differential correspondence + per-output certificates"),
  "C14": dict(level="proof", design="6/C14",
    text="Lean theorems about the threshold fill in ranking-position space (C14_threshold_rule, C14_two_sided, C14_match_two_queries): favourite kept, simulated <= true, set value/lower bound, outside-all-sets upper bound. Correspondence: simulated matrices of k-ARV, lambda-TSF, Match-TwoQueries equal the model's per agent (thresholds from the specification's formula).",
    note="Float threshold comparisons: a value between an exact threshold and its float rounding is ambiguous (excluded, counted).",
@@ -65,9 +65,9 @@ CHECKS = {
    text="Lean theorems: karv/tsf distortion bounds derived from what simulate returns (C16_karv, C16_tsf), rpow thresholds form the ratio chain (C16_rpow_thresholds, in R), distortion helper >= 1. Correspondence: end-to-end inequality on the real code with exact rational welfare, every tie-breaker, helper vs exact ratio and the model.",
    note="The theorems are over Q with abstract thresholds; the float thresholds of the code are tied by the C14 correspondence.",
    technique="Lean 4 proof + end-to-end exact-arithmetic check of the guarantee"),
- "C17": dict(level="translation_validation", design="6/C17",
-   text="Composition of the two-sided fill (Lean model simulate2, proved: C14_two_sided, dtsf_sim_int) with Irving certified per output as in C03, with the simulated integer valuations as weights.",
-   note="As C03 (incl. the brute-force optimum optStable for n <= 7 with the simulated weights: C17_brute_optimal).", technique="Lean-proved certificate checker + Lean-proved brute-force specification (n <= 7) applied to every output + model correspondence of the simulated profiles"),
+ "C17": dict(level="proof", design="6/C17",
+   text="Composition of the two-sided fill (Lean model simulate2, proved: C14_two_sided, dtsf_sim_int) with the Irving mirror: the end-to-end model ElicitRules.dtsf returns a perfect stable matching (C17_dtsf_sound) whose total SIMULATED value is the maximum over all stable matchings (C17_dtsf_optimal, from C03_irving_optimal, under WeightBound for the simulated weights). Correspondence: simulated profiles equal the model's (sim2), the final answer equals the end-to-end model's (dtsf op); every output is also checked against the model's brute-force optimum optStable (n <= 7) and the Lean-checked LP-dual certificate; the closed-subset stage is driven directly on random posets.",
+   note="As C03.", technique="Lean 4 proof of the end-to-end mirror + differential correspondence + per-output certificates"),
  "C18": dict(level="proof", design="6/C18",
    text="Lean theorems: relation checkers (ordinalOkB, strictifyOkB / strictOkB, completeOkB) sound and complete w.r.t. the property clauses for every admissible sort/shuffle order; tie breaking for EVERY numbering of the ties (C18_ties_general; the pinned code violated it on dense numberings: defect F14, fixed); generator spec; consistency predicate accepts/rejects. Correspondence: every output row goes through the checkers; generator outputs equal generateRow on the re-drawn draws; predicate equals the model's.",
    note="Orders chosen by numpy among ties/NaNs are treated as arbitrary.", technique="Lean 4 proof of relation checkers + checker run on every output"),
